@@ -191,3 +191,77 @@ Print Assumptions C16_index.
 Print Assumptions C16_is_request.
 Print Assumptions C16_is_push.
 Print Assumptions C16_add_saturates.
+
+(* ---------------- decoding from a NON-CONTIGUOUS `Buf` (round 3) ----------------
+   Model/ChunkedBuf.v: a queue of non-empty chunks with the three required Buf methods; Model/ChunkedVarint.v:
+   VarInt::decode written against has_remaining / get_u8 / remaining / copy_to_slice (the bytes-crate provided methods,
+   themselves loops over chunk() / advance()).  [cb_wf cs]: no chunk is empty (the bytes::Buf contract). *)
+From H3V Require Import Model.ChunkedBuf Model.ChunkedVarint Proofs.ChunkedBufProofs Proofs.ChunkedVarintProofs.
+
+(* for EVERY chunking of the input the result (value or error) is that of the flat decoder on the concatenation, the
+   buffer left behind holds exactly the flat decoder's rest, and still has no empty chunk *)
+Theorem C16_decode_any_chunking :
+  forall cs, cb_wf cs ->
+    fst (vi_decode_buf cs) = fst (vi_decode (concat cs)) /\
+    concat (snd (vi_decode_buf cs)) = snd (vi_decode (concat cs)) /\
+    cb_wf (snd (vi_decode_buf cs)).
+Proof. exact vi_decode_buf_flat. Qed.
+
+(* hence RFC 9000 for every chunking: a complete encoding (minimal or not) cut anywhere decodes to its RFC value and
+   exactly its length is consumed; a truncated one cut anywhere is an error *)
+Theorem C16_decode_any_chunking_any_form :
+  forall cs b0 r, cb_wf cs -> concat cs = b0 :: r -> wf_bytes (b0 :: r) -> rfc_vi_len b0 <= len (b0 :: r) ->
+    let l := N.to_nat (rfc_vi_len b0) in
+    fst (vi_decode_buf cs) = Ok (rfc_vi_value (firstn l (b0 :: r))) /\
+    concat (snd (vi_decode_buf cs)) = skipn l (b0 :: r).
+Proof. exact vi_decode_buf_complete. Qed.
+Theorem C16_truncated_any_chunking :
+  forall cs b0 r, cb_wf cs -> concat cs = b0 :: r -> b0 < 256 -> len (b0 :: r) < rfc_vi_len b0 ->
+    exists e, fst (vi_decode_buf cs) = Err e.
+Proof. exact vi_decode_buf_truncated. Qed.
+
+(* the wrappers: BufExt::get_var (both copies), StreamType::decode, SessionId::decode *)
+Theorem C16_get_var_any_chunking :
+  forall cs, cb_wf cs ->
+    fst (vi_get_var_buf cs) = fst (vi_get_var (concat cs)) /\
+    concat (snd (vi_get_var_buf cs)) = snd (vi_get_var (concat cs)) /\
+    cb_wf (snd (vi_get_var_buf cs)).
+Proof. exact vi_get_var_buf_flat. Qed.
+Theorem C16_stream_type_decode_any_chunking :
+  forall cs, cb_wf cs ->
+    fst (st_decode_buf cs) = fst (st_decode (concat cs)) /\
+    concat (snd (st_decode_buf cs)) = snd (st_decode (concat cs)) /\
+    cb_wf (snd (st_decode_buf cs)).
+Proof. exact st_decode_buf_flat. Qed.
+Theorem C16_session_id_decode_any_chunking :
+  forall cs, cb_wf cs ->
+    fst (sess_decode_buf cs) = fst (sess_decode (concat cs)) /\
+    concat (snd (sess_decode_buf cs)) = snd (sess_decode (concat cs)) /\
+    cb_wf (snd (sess_decode_buf cs)).
+Proof. exact sess_decode_buf_flat. Qed.
+
+(* what the code does on a failed decode (a description of the code that exists; the property text demands only "an
+   error"): UnexpectedEnd carries the two-bit length tag of the first byte - 0 on an empty buffer, else 1, 2 or 3 for a
+   2-, 4-, 8-byte form - not a byte count; an empty buffer is left untouched, otherwise exactly the first byte has been
+   consumed (get_u8 runs before the length check) and the truncated tail stays unread, for every chunking *)
+Theorem C16_failed_decode_position :
+  forall cs e cs', cb_wf cs -> vi_decode_buf cs = (Err e, cs') ->
+    (concat cs = [] /\ e = 0 /\ cs' = cs) \/
+    (exists b0 r, concat cs = b0 :: r /\ concat cs' = r /\ e = N.shiftr b0 6 /\ 1 <= e <= 3 /\ len (b0 :: r) < 2 ^ e).
+Proof. exact vi_decode_buf_failed. Qed.
+
+Example C16_decode_any_chunking_inhabited :
+  vi_decode_buf [[128]; [0; 64]; [0; 7]] = (Ok 16384, [[7]]) /\ vi_decode_buf [[64]; [5]; [9]] = (Ok 5, [[9]]).
+Proof. vm_compute. split; reflexivity. Qed.
+Example C16_failed_decode_position_inhabited :
+  vi_decode_buf [[192]; [1]; [2]] = (Err 3, [[1]; [2]]) /\ vi_decode_buf [] = (Err 0, []) /\
+  vi_decode_buf [[128; 1]; [2]] = (Err 2, [[1]; [2]]).
+Proof. vm_compute. repeat split; reflexivity. Qed.
+
+Print Assumptions C16_decode_any_chunking.
+Print Assumptions C16_decode_any_chunking_any_form.
+Print Assumptions C16_truncated_any_chunking.
+Print Assumptions C16_get_var_any_chunking.
+Print Assumptions C16_stream_type_decode_any_chunking.
+Print Assumptions C16_session_id_decode_any_chunking.
+Print Assumptions C16_failed_decode_position.
